@@ -296,6 +296,7 @@ class Executor:
         self.solver_seconds = 0.0
         self.queries = 0
         self.unmodelled, self.inlined, self.modelled = set(), set(), set()
+        self.axioms = []  # constraints on auxiliary constants the models introduce (e.g. size_of::<T>() >= 1)
         self.closures = {}
         for k, b in bodies.items():
             if "{closure#" in k and b.params:
@@ -375,7 +376,7 @@ class Executor:
         short = lambda t: re.sub(r"[A-Za-z_0-9]+::", "", t).replace(" ", "")
         if m:
             self_ty, trait, meth = m.group(1), m.group(2), m.group(3)
-            tm = re.match(r"^(\w+)<(.+)>$", trait.split("::")[-1])
+            tm = re.match(r"^(?:[\w:]*::)?(\w+)<(.+)>$", trait)
             cands = []
             for k, b in self.bodies.items():
                 if not re.search(r"<impl at [^>]+>::%s$" % re.escape(meth), k) or len(b.params) != nargs:
@@ -1484,6 +1485,147 @@ def m_map_get(ex, callee, args, pc, store, depth):
         yield ("value", some(ex, st, Ref(cell)), pc + [c], st)
     if miss_f:
         yield ("value", NONE, pc + [miss], store)
+
+
+
+# ---- Iterator::next on iterator cells (for-loops): the iterator is materialised once, then advanced
+
+def materialise(ex, it, pc, store, depth):
+    if it.kind == "list":
+        return it
+    if it.kind == "map":
+        raise Unsupported("for-loop over a mapped iterator (closure calls would be reordered)")
+    res = list(ex.iter_items(it, pc, store, depth))
+    if len(res) != 1 or res[0][1] is not pc and len(res[0][1]) != len(pc):
+        raise Unsupported("for-loop over an iterator whose length depends on the path")
+    return Iter("list", items=tuple(res[0][0]), pos=0)
+
+
+@MODELS.add(r" as Iterator>::next$")
+def m_iter_next(ex, callee, args, pc, store, depth):
+    cell = args[0].cell
+    it = store[cell]
+    if isinstance(it, Tup) and it.adt == "Range":
+        it = Iter("range", lo=store[it.cells[0]], hi=store[it.cells[1]])
+    if not isinstance(it, Iter):
+        raise Unsupported("next() on %r" % (it,))
+    it = materialise(ex, it, pc, store, depth)
+    if it.pos >= len(it.items):
+        store[cell] = it
+        yield ("value", NONE, pc, store)
+    else:
+        store[cell] = Iter("list", items=it.items, pos=it.pos + 1)
+        yield ("value", some(ex, store, it.items[it.pos]), pc, store)
+
+
+@MODELS.add(r" as IntoIterator>::into_iter$")
+def m_iter_identity(ex, callee, args, pc, store, depth):
+    """IntoIterator for iterators is the identity; for maps it yields (key, value) pairs in insertion order."""
+    v = args[0]
+    if isinstance(v, Iter):
+        yield ("value", v, pc, store)
+    elif isinstance(v, MapV):
+        items = [Tup([ex.world.new(store, Str(z3.StringVal(k))), c]) for k, c in v.entries]
+        yield ("value", Iter("vec", cells=tuple(ex.world.new(store, t) for t in items)), pc, store)
+    elif isinstance(v, Tup) and v.adt == "Range":
+        yield ("value", Iter("range", lo=store[v.cells[0]], hi=store[v.cells[1]]), pc, store)
+    else:
+        raise Unsupported("into_iter of %r" % (v,))
+
+
+@MODELS.add(r" as Iterator>::sum::<(usize|u64|u32)>$")
+def m_iter_sum(ex, callee, args, pc, store, depth):
+    for items, pcx, stx in ex.iter_items(args[0], pc, store, depth):
+        if isinstance(items, tuple) and items[0] == "abort":
+            yield (items[1], items[2], pcx, stx)
+            continue
+        total = z3.BitVecVal(0, 64)
+        for v in items:
+            total = total + ex.as_bv(v).t
+        yield ("value", BV(total, 64, False), pcx, stx)
+
+
+# ---- maps: construction, insertion, iteration (concrete keys, insertion order = IndexMap's documented order)
+
+def concrete_key(k):
+    sv = z3.simplify(k.t)
+    if not z3.is_string_value(sv):
+        raise Unsupported("map key is not a concrete string")
+    return sv.as_string()
+
+
+@MODELS.add(r"(HashMap|IndexMap)::<.*>::new$")
+def m_map_new(ex, callee, args, pc, store, depth):
+    yield ("value", MapV([]), pc, store)
+
+
+@MODELS.add(r"(HashMap|IndexMap)::<.*>::insert$")
+def m_map_insert(ex, callee, args, pc, store, depth):
+    cell = args[0].cell
+    m = store[cell]
+    key = concrete_key(deref_all(store, args[1]))
+    for i, (k, c) in enumerate(m.entries):
+        if k == key:
+            old = store[c]
+            entries = list(m.entries)
+            entries[i] = (k, ex.world.new(store, args[2]))
+            store[cell] = MapV(entries)
+            yield ("value", some(ex, store, old), pc, store)
+            return
+    store[cell] = MapV(list(m.entries) + [(key, ex.world.new(store, args[2]))])
+    yield ("value", NONE, pc, store)
+
+
+@MODELS.add(r"(HashMap|IndexMap)::<.*>::(iter|len|is_empty)$")
+def m_map_misc(ex, callee, args, pc, store, depth):
+    m = deref_all(store, args[0])
+    meth = callee.rsplit("::", 1)[1]
+    if meth == "len":
+        yield ("value", BV(z3.BitVecVal(len(m.entries), 64), 64, False), pc, store)
+    elif meth == "is_empty":
+        yield ("value", Bool(z3.BoolVal(not m.entries)), pc, store)
+    else:
+        pairs = [Tup([ex.world.new(store, Ref(ex.world.new(store, Str(z3.StringVal(k))))), ex.world.new(store, Ref(c))]) for k, c in m.entries]
+        yield ("value", Iter("vec", cells=tuple(ex.world.new(store, t) for t in pairs)), pc, store)
+
+
+@MODELS.add(r" as Iterator>::collect::<(indexmap::)?(map::)?(IndexMap|HashMap|std::collections::HashMap)<")
+def m_collect_map(ex, callee, args, pc, store, depth):
+    for items, pcx, stx in ex.iter_items(args[0], pc, store, depth):
+        if isinstance(items, tuple) and items[0] == "abort":
+            yield (items[1], items[2], pcx, stx)
+            continue
+        entries = []
+        for t in items:
+            k = concrete_key(stx[t.cells[0]])
+            entries = [(kk, c) for kk, c in entries if kk != k] + [(k, t.cells[1])]
+        yield ("value", MapV(entries), pcx, stx)
+
+
+@MODELS.add(r"^(std::string::)?String::len$|^core::str::<impl str>::len$")
+def m_str_len(ex, callee, args, pc, store, depth):
+    v = deref_all(store, args[0])
+    sv = z3.simplify(v.t)
+    if z3.is_string_value(sv):
+        yield ("value", BV(z3.BitVecVal(len(sv.as_string().encode("utf-8")), 64), 64, False), pc, store)  # byte length
+    else:
+        yield ("value", BV(z3.Int2BV(z3.Length(v.t), 64), 64, False), pc, store)
+
+
+SIZEOF = {}
+
+
+@MODELS.add(r"^(std::mem::|core::mem::)?size_of::<")
+def m_size_of(ex, callee, args, pc, store, depth):
+    """The size of a type is a positive constant that depends on the type only (its value is the platform's, not FML's)."""
+    ty = callee[callee.index("<") + 1:callee.rindex(">")]
+    if ty not in SIZEOF:
+        SIZEOF[ty] = z3.BitVec("sizeof_" + re.sub(r"\W+", "_", ty), 64)
+    v = SIZEOF[ty]
+    ax = [z3.UGE(v, 1), z3.ULE(v, 4096)]
+    if not any(a.eq(ax[0]) for a in ex.axioms):
+        ex.axioms += ax
+    yield ("value", BV(v, 64, False), pc + ax, store)
 
 
 # ---- message / error construction: opaque
